@@ -135,7 +135,10 @@ pub fn judge(ctx: &mut Ctx, b: &[u8], tag: &str) {
         // accepted control / length-carrying data messages: also at the front of a > 4 GiB buffer
         if i == ((ctx.idx + 3) % 8) as u8 && ctx.rng.chance(1, 8) {
             if let (Ok(want), true) = (&spec.result, b.len() >= 4 && b[0] & 0x02 != 0) {
-                let tail = *ctx.rng.pick(&[0x1_0000_0000usize - b.len() + 7, 0x1_0000_0000, 0x1_0000_0011, 1 << 36]);
+                // total sizes whose low 32 bits are tiny: 2^32 (or 2^33) plus 0..15 octets behind
+                // the 12-octet header, and a few others
+                let k = ctx.rng.below(16) as usize;
+                let tail = *ctx.rng.pick(&[(0x1_0000_0000usize + 12 + k).saturating_sub(b.len()), (0x2_0000_0000usize + 12 + k).saturating_sub(b.len()), 0x1_0000_0000, 0x1_0000_0011, 1 << 36]);
                 let r2 = exec::decode_msg(b, Some(o), Rk::VirtualTail(tail));
                 ctx.rep.bucket("virtual_4gib_tail");
                 match &r2.out {
